@@ -65,7 +65,7 @@ def run(tier):
     for name, fn, line in unmatched:
         v.report({"name": name, "clause": "ir_object_without_source", "file": fn, "line": line}, replay=None)
     # S->I: every canonical encoding of the wire model lies inside the declared bounds
-    ctx = CC.explore("quick" if tier == "quick" else "thorough", tag="c09")
+    ctx = CC.explore("quick" if tier == "quick" else "thorough", tag="c09", nprof=None if tier == "quick" else 2)
     decl = {}
     for r in verdicts:
         decl[(r["oid"], r["exp"], r["lv"])] = r
